@@ -44,4 +44,18 @@ Fixpoint run_steps (w : world) (h : list ev) : list jv :=
          end ] :: run_steps w1 r
   end.
 
-Definition run_hist (h : list ev) : jv := JL [ jbool (wf_hist h); JL (run_steps world0 h) ].
+(* sanity flag for the generator: the kernel part of well-formedness (PIDs handed out when free, distinct start
+   ticks); Deny events are allowed here -- they only take a history out of the domain of the wf_hist theorems *)
+Definition wfp_kev (w : world) (k : kev) : bool := match k with Deny _ => true | _ => wf_kev w k end.
+Fixpoint wfp_kevs (w : world) (ks : list kev) : bool :=
+  match ks with [] => true | k :: r => wfp_kev w k && wfp_kevs (kstep w k) r end.
+Definition wfp_ev (w : world) (e : ev) : bool :=
+  match e with
+  | EK k => wfp_kev w k
+  | EC _ => true
+  | ER o _ ks => wfp_kevs (fst (fst (cstep w (SetProbe o)))) ks
+  end.
+Fixpoint wfp_from (w : world) (h : list ev) : bool :=
+  match h with [] => true | e :: r => wfp_ev w e && wfp_from (next w e) r end.
+
+Definition run_hist (h : list ev) : jv := JL [ jbool (wfp_from world0 h); JL (run_steps world0 h) ].
